@@ -37,10 +37,15 @@ func (t *TileSpec) oaxisOf(j int) int {
 // operators whose cost per row is high: a smaller target keeps the mode affordable
 var slowTile = map[string]int{"Conv": 60000, "RNN": 20000, "GRU": 20000, "LSTM": 20000, "Gather": 300000}
 
+var hugeTile = map[string]bool{"Reshape": true, "Flatten": true, "Squeeze": true, "Unsqueeze": true, "Shape": true, "Transpose": true, "Cast": true}
+
 func tileFactor(c *Case) int {
 	target := 1100000
 	if t, ok := slowTile[c.Op]; ok {
 		target = t
+	}
+	if hugeTile[c.Op] {
+		target = 4400000 // (operators that only move or relabel elements: beyond 2^22 elements, an odd count)
 	}
 	minSize := 0
 	for _, p := range c.Tile.Pos {
